@@ -29,6 +29,7 @@ fn main() {
                 std::process::exit(2);
             }
         }
+        "render" => props::c12::render_main(),
         "worker" => {
             let prop = props::lookup(args.get(2).map(|s| s.as_str()).unwrap_or("")).unwrap_or_else(|| usage());
             pool::worker_main(move |req| {
